@@ -9,6 +9,26 @@ from concurrent.futures import ThreadPoolExecutor
 from pathlib import Path
 
 VERIF = Path(__file__).resolve().parent.parent
+import threading
+import time
+_GIT_LOCK = threading.Lock()
+
+
+def add_worktree(wt):
+    """git worktree add is not safe to run concurrently: serialise and retry"""
+    for _ in range(6):
+        with _GIT_LOCK:
+            r = subprocess.run(["git", "-C", "/repo", "worktree", "add", "-q", "--detach", wt, "HEAD"], stdout=subprocess.PIPE, stderr=subprocess.STDOUT, text=True)
+        if r.returncode == 0 and os.path.isdir(wt):
+            return True
+        time.sleep(1.0)
+    return False
+
+
+def remove_worktree(wt):
+    with _GIT_LOCK:
+        subprocess.run(["git", "-C", "/repo", "worktree", "remove", "--force", wt], stdout=subprocess.PIPE, stderr=subprocess.STDOUT, text=True)
+
 
 
 def sh(cmd, **kw):
@@ -18,7 +38,8 @@ def sh(cmd, **kw):
 def run_one(bid, props):
     d = VERIF / "benign" / bid
     wt = f"/tmp/wt_rb_{bid}_{os.getpid()}"
-    sh(["git", "-C", "/repo", "worktree", "add", "-q", "--detach", wt, "HEAD"])
+    if not add_worktree(wt):
+        return (sid if "sid" in dir() else bid), {"error": "could not create a scratch worktree"}
     out = {}
     try:
         ap = sh(["git", "-C", wt, "apply", str(d / "patch.diff")])
@@ -29,7 +50,7 @@ def run_one(bid, props):
             if c.returncode != 0:
                 out[p] = {"exit": c.returncode, "lines": [l.strip()[:260] for l in c.stdout.splitlines() if l.strip().startswith("finding:") or "ANALYSIS-ERROR" in l]}
     finally:
-        sh(["git", "-C", "/repo", "worktree", "remove", "--force", wt])
+        remove_worktree(wt)
     return bid, out
 
 
